@@ -7,7 +7,6 @@ import (
 	"go/types"
 	"strings"
 
-	"golang.org/x/tools/go/ssa"
 )
 
 func init() { register("C07", checkC07) }
@@ -19,7 +18,7 @@ func checkC07(c *Check, a *Anchors) {
 	}
 	c07SlotPaired(c, a)
 	c07SlotStates(c, a)
-	c07NoLockAcrossBlock(c, a)
+	dedupNoLockAcrossBlock(c, a)
 	c07SemCapacity(c, a)
 	c07RecursionGated(c, a)
 	c07ReentrantWait(c, a)
@@ -130,22 +129,7 @@ func c07SlotStates(c *Check, a *Anchors) {
 			c.Errorf("slot-states: no %s event in %s", e.label, fnDisplay(e.fb))
 		}
 	}
-	// dedup wait
-	d := a.Dedup
-	c.Fn(d)
-	fd := NewFlow(c.P, d, a.labelRun(d.Info()))
-	fd.Run()
-	nRecv := 0
-	for node, st := range fd.At {
-		if u, ok := node.(*ast.UnaryExpr); ok && u.Op == token.ARROW {
-			nRecv++
-			c.Decide(st.Has("called:release"), "slot-states", "dedup-wait-after-handback@"+fnDisplay(d), u.Pos(), "slot handed back before waiting for the other execution",
-				"the wait for a deduplicated execution blocks while holding the concurrency slot; must-facts: "+st.String())
-		}
-	}
-	if nRecv == 0 {
-		c.Errorf("slot-states: no blocking receive in the dedup function")
-	}
+	dedupWaitSlot(c, a)
 	// cmds RunCommand never after a hand-back (path enumeration of the command runner)
 	fn := c.P.SSAFunc(a.CmdRunner)
 	if fn == nil {
@@ -170,78 +154,6 @@ func c07SlotStates(c *Check, a *Anchors) {
 		c.Errorf("slot-states: no path of the command runner runs a command")
 	}
 	c.Decide(bad == "", "slot-states", "command-under-slot@"+fnDisplay(a.CmdRunner), a.CmdRunner.Decl.Pos(), fmt.Sprintf("no hand-back precedes RunCommand on any of %d paths", n), "a command is executed after the slot was handed back: "+bad)
-}
-
-func c07NoLockAcrossBlock(c *Check, a *Anchors) {
-	c.Rule("no-lock-across-block", "on every enumerated path of the dedup function executionHashesMutex is not held at the blocking receive, at the execute callback, or at any return (path-sensitive lock counting)")
-	d := a.Dedup
-	fn := c.P.SSAFunc(d)
-	if fn == nil {
-		c.Errorf("no-lock-across-block: no SSA for the dedup function")
-		return
-	}
-	isMu := func(v ssa.Value) bool {
-		fa, ok := v.(*ssa.FieldAddr)
-		return ok && strings.HasSuffix(fieldKeySSA(fa.X.Type(), fa.Field), ".executionHashesMutex")
-	}
-	pe := &PathEnum{Fn: fn, MaxRevisit: revisit(), Event: func(in ssa.Instruction) (string, string) {
-		switch x := in.(type) {
-		case *ssa.Call:
-			if f := x.Common().StaticCallee(); f != nil && len(x.Common().Args) > 0 && isMu(x.Common().Args[0]) {
-				return "mu." + f.Name(), "call"
-			}
-			if _, isParam := x.Common().Value.(*ssa.Parameter); isParam {
-				return "execute", "call"
-			}
-		case *ssa.Defer:
-			if f := x.Common().StaticCallee(); f != nil && len(x.Common().Args) > 0 && isMu(x.Common().Args[0]) {
-				return "mu." + f.Name(), "defer"
-			}
-		case *ssa.UnOp:
-			if x.Op == token.ARROW {
-				return "recv", "recv"
-			}
-		case *ssa.Select:
-			return "recv", "recv"
-		}
-		return "", ""
-	}}
-	pe.Run()
-	c.Paths += len(pe.Paths)
-	var bad []string
-	nBlock := 0
-	for _, p := range pe.Paths {
-		held := 0
-		deferredUnlock := false
-		for _, e := range p.Events {
-			switch {
-			case e.Label == "mu.Lock" && e.Kind == "call":
-				held++
-			case e.Label == "mu.Unlock" && e.Kind == "call":
-				held--
-			case e.Label == "mu.Unlock" && e.Kind == "defer":
-				deferredUnlock = true
-			case e.Label == "recv" || e.Label == "execute":
-				nBlock++
-				if held > 0 {
-					bad = append(bad, fmt.Sprintf("%s happens while executionHashesMutex is held: %s", e.Label, p))
-				}
-			}
-		}
-		if held > 0 && !deferredUnlock && !p.Panic {
-			bad = append(bad, "the function returns with executionHashesMutex held: "+p.String())
-		}
-		if held < 0 {
-			bad = append(bad, "Unlock without Lock: "+p.String())
-		}
-	}
-	if nBlock == 0 {
-		c.Errorf("no-lock-across-block: no blocking event found in the dedup function")
-	}
-	if len(bad) > 3 {
-		bad = bad[:3]
-	}
-	c.Decide(len(bad) == 0, "no-lock-across-block", "lock-count@"+fnDisplay(d), d.Decl.Pos(), fmt.Sprintf("lock released before every blocking event / return on all %d paths", len(pe.Paths)), strings.Join(bad, " || "))
 }
 
 func c07SemCapacity(c *Check, a *Anchors) {
@@ -271,7 +183,7 @@ func c07SemCapacity(c *Check, a *Anchors) {
 			pm := parentMap(fb.Body)
 			for p := pm[as]; p != nil; p = pm[p] {
 				if ifs, ok := p.(*ast.IfStmt); ok && within(as, ifs.Body) {
-					if be, ok := ast.Unparen(ifs.Cond).(*ast.BinaryExpr); ok && be.Op == token.GTR && fieldSel(info, be.X, PkgTask, "Executor", "Concurrency") && exprStr(be.Y) == "0" {
+					if be, ok := ast.Unparen(ifs.Cond).(*ast.BinaryExpr); ok && be.Op == token.GTR && fieldSel(info, be.X, PkgTask, "Executor", "Concurrency") && constIs(info, be.Y, "0") {
 						guard = true
 					}
 				}
@@ -285,53 +197,37 @@ func c07SemCapacity(c *Check, a *Anchors) {
 	shape := func(fb *FuncBody, firstSend bool, what string) {
 		c.Fn(fb)
 		info := fb.Info()
-		sends, recvs := 0, 0
-		inspectBody(fb.Body, func(nd ast.Node) bool {
-			switch x := nd.(type) {
-			case *ast.SendStmt:
-				if fieldSel(info, x.Chan, PkgTask, "Executor", "concurrencySemaphore") {
-					sends++
-				}
-			case *ast.UnaryExpr:
-				if x.Op == token.ARROW && fieldSel(info, x.X, PkgTask, "Executor", "concurrencySemaphore") {
-					recvs++
-				}
-			}
-			return true
-		})
-		lsends, lrecvs := 0, 0
-		for _, l := range fb.Lits() {
-			inspectBody(l.Body, func(nd ast.Node) bool {
-				switch x := nd.(type) {
-				case *ast.SendStmt:
-					if fieldSel(info, x.Chan, PkgTask, "Executor", "concurrencySemaphore") {
-						lsends++
-					}
-				case *ast.UnaryExpr:
-					if x.Op == token.ARROW && fieldSel(info, x.X, PkgTask, "Executor", "concurrencySemaphore") {
-						lrecvs++
-					}
-				}
-				return true
-			})
-		}
-		ok := false
+		own := a.semOps(fb.Body, info, 2)
+		rets := a.returnedFuncOps(fb)
+		wantOwn, wantRet := "recv", "send"
 		if firstSend {
-			ok = sends == 1 && recvs == 0 && lrecvs == 1 && lsends == 0
-		} else {
-			ok = recvs == 1 && sends == 0 && lsends == 1 && lrecvs == 0
+			wantOwn, wantRet = "send", "recv"
 		}
-		// nil guard first
+		ok := len(own) == 1 && own[0] == wantOwn
+		nReal := 0
+		for _, r := range rets {
+			if len(r) == 0 {
+				continue // the no-op function returned when there is no semaphore
+			}
+			nReal++
+			if len(r) != 1 || r[0] != wantRet {
+				ok = false
+			}
+		}
+		if nReal == 0 {
+			ok = false
+		}
+		// nil guard: the first statement returns when the semaphore is nil
 		nilGuard := false
 		if len(fb.Body.List) > 0 {
-			if ifs, ok := fb.Body.List[0].(*ast.IfStmt); ok {
-				if be, ok := ast.Unparen(ifs.Cond).(*ast.BinaryExpr); ok && be.Op == token.EQL && fieldSel(info, be.X, PkgTask, "Executor", "concurrencySemaphore") && isNilLit(info, be.Y) {
+			if ifs, isIf := fb.Body.List[0].(*ast.IfStmt); isIf {
+				if be, isBin := ast.Unparen(ifs.Cond).(*ast.BinaryExpr); isBin && be.Op == token.EQL && fieldSel(info, be.X, PkgTask, "Executor", "concurrencySemaphore") && isNilLit(info, be.Y) {
 					nilGuard = len(returnsOf(ifs.Body)) == 1
 				}
 			}
 		}
 		c.Decide(ok && nilGuard, "sem-capacity", what+"@"+fnDisplay(fb), fb.Decl.Pos(), "exactly one token each way, no-op without a semaphore",
-			fmt.Sprintf("%s does not move exactly one token each way (body sends %d / receives %d, closure sends %d / receives %d, nil guard first: %v)", what, sends, recvs, lsends, lrecvs, nilGuard))
+			fmt.Sprintf("%s does not move exactly one token each way (own operations %v, returned function's operations %v, nil guard first: %v)", what, own, rets, nilGuard))
 	}
 	shape(a.Acquire, true, "acquire")
 	shape(a.Release, false, "release")
@@ -399,52 +295,39 @@ func c07RecursionGated(c *Check, a *Anchors) {
 }
 
 func c07ReentrantWait(c *Check, a *Anchors) {
-	c.Rule("reentrant-wait-guarded", "the blocking wait for a deduplicated execution is reachable from the execute callback of the very same execution (dependency cycle through a run: once / when_changed task); between the lookup and the wait there must be a test on call-derived (ancestor) data that lets a task waiting for itself fail instead of hanging")
-	d := a.Dedup
-	info := d.Info()
-	name := fnDisplay(d)
-	var recv *ast.UnaryExpr
-	inspectBody(d.Body, func(nd ast.Node) bool {
-		if u, ok := nd.(*ast.UnaryExpr); ok && u.Op == token.ARROW && recv == nil {
-			recv = u
-		}
-		return true
-	})
-	if recv == nil {
-		c.Errorf("reentrant-wait-guarded: wait not found")
+	c.Rule("reentrant-wait-guarded", "the blocking wait for a deduplicated execution is reachable from the execute callback of the very same execution (dependency cycle through a run: once / when_changed task); on every waiting path there must be, between the table lookup and the wait, a test on call-derived (ancestor / context) data that lets a task waiting for itself fail instead of hanging")
+	d := enumerateDedup(c, a)
+	if d == nil {
 		return
 	}
-	// any conditional on ctx / call-derived data inside the found branch before the receive?
-	guarded := false
-	pm := parentMap(d.Body)
-	var branch ast.Node
-	for p := pm[recv]; p != nil; p = pm[p] {
-		if ifs, ok := p.(*ast.IfStmt); ok {
-			branch = ifs.Body
+	n, unguarded := 0, ""
+	for _, p := range d.pe.Paths {
+		ir := p.EventIndex("recv-record", "recv")
+		il := p.EventIndex("lookup", "")
+		if ir < 0 || il < 0 {
+			continue
+		}
+		n++
+		guarded := false
+		for i := il; i < ir; i++ {
+			e := p.Events[i]
+			if e.Kind != "assume" {
+				continue
+			}
+			l := strings.ToLower(e.Label)
+			if strings.Contains(l, "context") || strings.Contains(l, "ancestor") || strings.Contains(l, "cycle") || strings.Contains(l, "param:ctx") {
+				guarded = true
+			}
+		}
+		if !guarded {
+			unguarded = p.String()
 		}
 	}
-	if branch != nil {
-		inspectBody(branch, func(nd ast.Node) bool {
-			switch x := nd.(type) {
-			case *ast.IfStmt:
-				if x.Pos() < recv.Pos() && (strings.Contains(exprStr(x.Cond), "ctx") || strings.Contains(strings.ToLower(exprStr(x.Cond)), "ancestor") || strings.Contains(strings.ToLower(exprStr(x.Cond)), "cycle")) {
-					guarded = true
-				}
-			case *ast.SelectStmt:
-				// waiting in a select that also observes a cycle/ancestor signal
-				if within(recv, x) && len(x.Body.List) > 1 {
-					for _, cl := range x.Body.List {
-						if s := exprStr2(cl.(*ast.CommClause).Comm); strings.Contains(strings.ToLower(s), "cycle") || strings.Contains(strings.ToLower(s), "ancestor") {
-							guarded = true
-						}
-					}
-				}
-			}
-			return true
-		})
+	if n == 0 {
+		c.Errorf("reentrant-wait-guarded: no waiting path")
+		return
 	}
-	_ = info
-	c.Decide(guarded, "reentrant-wait-guarded", "wait@"+name, recv.Pos(), "the wait is guarded by an ancestor test",
+	c.Decide(unguarded == "", "reentrant-wait-guarded", "wait@"+d.name, a.Dedup.Decl.Pos(), "every wait is guarded by an ancestor test",
 		"a task that (transitively) depends on itself through a run: once / when_changed task waits for its own execution: the invocation hangs instead of ending with error 204/201 (no test on ancestor data between the lookup and the blocking receive)")
 }
 
